@@ -33,6 +33,7 @@ type Engine struct {
 	verbose   bool
 	assumptions map[string]bool
 	tagSuffix   string
+	fmtIDs      map[string]int
 	errGlobalTag map[string]string // dynamic type tag of such a global when init shows it
 	errGlobals  map[string]bool // G$pkg.Name of interface-typed globals initialised once to a fresh non-nil value
 }
@@ -518,6 +519,13 @@ func (e *Engine) isMonitorGuardedKey(key string) bool {
 		if tp == nil || tp.Name() != pkgName {
 			continue
 		}
+		for _, m2 := range pc.Monitors {
+			for _, o := range m2.Owns {
+				if o == typ {
+					return true
+				}
+			}
+		}
 		md := pc.Monitors[typ]
 		if md == nil {
 			continue
@@ -532,4 +540,16 @@ func (e *Engine) isMonitorGuardedKey(key string) bool {
 		}
 	}
 	return false
+}
+
+func (e *Engine) fmtID(format string) int {
+	if e.fmtIDs == nil {
+		e.fmtIDs = map[string]int{}
+	}
+	if id, ok := e.fmtIDs[format]; ok {
+		return id
+	}
+	id := len(e.fmtIDs) + 1
+	e.fmtIDs[format] = id
+	return id
 }
